@@ -668,6 +668,17 @@ func (n *VerifNode) collectReplies() {
 	n.tasks = rest
 }
 
+// PendingTasks lists the harness ids of the submitted tasks that have not completed yet.
+func (n *VerifNode) PendingTasks() []uint64 {
+	ids := []uint64{}
+	for _, t := range n.tasks {
+		if !isClosed(t.task.Done()) {
+			ids = append(ids, t.id)
+		}
+	}
+	return ids
+}
+
 func (n *VerifNode) track(id uint64, t Task) {
 	if id != 0 {
 		n.tasks = append(n.tasks, verifTask{id, t})
